@@ -45,6 +45,24 @@ class PROP(Prop):
                 self.one(cs, rng, proto, req, reply_fc=rng.choice([None, None, rng.randrange(256)]),
                          dtid=rng.choice([0, 0, 1, 0xFFFF, rng.randrange(65536)]), duid=rng.choice([0, 0, 1, rng.randrange(256)]),
                          history=rng.randrange(0, 4))
+        # an earlier call that failed or was abandoned after the HEADER (and part of the PDU) of a frame had arrived -- a header that would
+        # have matched the NEXT request -- and then a complete reply with another header: it is judged by its OWN header
+        for _ in range(120 if tier == "quick" else 1200):
+            slave = rng.randrange(256)
+            nwords = rng.randrange(1, 6)
+            reqb = ("RHR", rng.randrange(65536), nwords)
+            pdu_frag = mb.spec_rsp_pdu(("RHR", [rng.randrange(65536) for _ in range(nwords)]))
+            frag = cligen.frame("tcp", 1, slave, pdu_frag)                       # carries the header the second call will use
+            k = rng.randrange(7, len(frag))
+            first = rng.choice([cligen.call_op(("RHR", 5, 1), R="d%s,e:TimedOut" % frag[:k].hex()),
+                                cligen.call_op(("RHR", 5, 1), R="d%s,p,p" % frag[:k].hex(), drop="1"),
+                                cligen.call_op(("WSR", 5, 1), R="d%s,e:ConnectionReset" % frag[:k].hex())])
+            pdu = mb.spec_rsp_pdu(("RHR", [rng.randrange(65536) for _ in range(nwords)]))
+            rtid, ruid = rng.choice([((1 + rng.choice([1, 2, 0xFFFF])) & 0xFFFF, slave), (1, (slave + 1) & 0xFF), (0, slave)])
+            fr = cligen.frame("tcp", rtid, ruid, pdu)
+            parts = rng.choice([[fr], [fr[:7], fr[7:]], [fr[:k], fr[k:]]])
+            cs.append(Case(cligen.cli_line("tcp", slave, [first, cligen.call_op(reqb, R=mb.rscript(parts))]),
+                           {"hdr_eq": False, "req_fc": 3, "rsp_fc": 3, "exc": False, "rr": decoded_rr(pdu), "n": 2, "hdrfrag": k}))
         # at the wrap of the 16-bit transaction id: request ids 0xFFFE, 0xFFFF, 0x0000 (after 65534 / 65535 / 65536 earlier calls),
         # answered under the same id and under the neighbouring ids 0, 0xFFFF, id-1, id+1
         cheap = cligen.call_op(("RHR", 1, 1), R="e:Other")
